@@ -4,7 +4,7 @@
    from filters.py and util.py on every run) and lib/C20_Numpy.v. *)
 From Coq Require Import Reals ZArith List.
 Set Warnings "-ambiguous-paths".
-From Coquelicot Require Import Complex.
+From Coquelicot Require Import Coquelicot.
 From Verif Require Import lib.C20_Numpy gen.WinHelp C20.Model
      C20.ProofsWin C20.ProofsGamma C20.ProofsShift C20.ProofsGauss C20.ProofsAcc.
 Open Scope R_scope.
@@ -110,6 +110,14 @@ Theorem idft_embed : forall d start filt n, (0 < d)%Z ->
   idft (embed d start filt) n = seg_idft d start filt (IZR n).
 Proof. exact idft_embed_l. Qed.
 Print Assumptions idft_embed.
+(* a segment that fits (0 <= start, start + len <= D) is embedded verbatim: zeros, segment, zeros *)
+Theorem embed_fitting : forall d start filt b,
+  (0 <= start)%Z -> (start + Zlength filt <= d)%Z -> (0 <= b < d)%Z ->
+  nth (Z.to_nat b) (embed d start filt) (RtoC 0) =
+  if ((start <=? b)%Z && (b <? start + Zlength filt)%Z)%bool
+  then nth (Z.to_nat (b - start)) filt (RtoC 0) else RtoC 0.
+Proof. exact embed_fitting_l. Qed.
+Print Assumptions embed_fitting.
 (* the clause as stated: ifft(output) = ifft(input) circularly shifted by s samples *)
 Theorem circshift_shift_theorem : forall filt (s : Z) start d n, (0 < d)%Z ->
   idft (embed d start (circshift_out filt (IZR s) start (Some d))) n =
@@ -149,42 +157,39 @@ Theorem gauss_quant_symmetric : forall p mu std, p <> 1 / 2 ->
   gauss_quant (1 - p) mu std = 2 * mu - gauss_quant p mu std.
 Proof. exact gauss_quant_symmetric_l. Qed.
 Print Assumptions gauss_quant_symmetric.
-Theorem gauss_quant_increasing : forall p q mu std, 0 < std -> 0 < p -> p < q -> q < 1 ->
-  gauss_quant p mu std <= gauss_quant q mu std.
-Proof. exact gauss_quant_increasing_l. Qed.
+(* weakly increasing on all of (0,1) (the far tails saturate at +-10 sigma), strictly
+   increasing as long as both tail probabilities are at least 1e-20 *)
+Theorem gauss_quant_increasing : forall p q mu std, 0 < std -> p < q ->
+  (0 < p -> q < 1 -> gauss_quant p mu std <= gauss_quant q mu std) /\
+  (1 / 10 ^ 20 <= p -> q <= 1 - 1 / 10 ^ 20 -> gauss_quant p mu std < gauss_quant q mu std).
+Proof. exact gauss_quant_monotone_l. Qed.
 Print Assumptions gauss_quant_increasing.
-Theorem gauss_quant_strictly_increasing : forall p q mu std,
-  0 < std -> 1 / 10 ^ 20 <= p -> p < q -> q <= 1 - 1 / 10 ^ 20 ->
-  gauss_quant p mu std < gauss_quant q mu std.
-Proof. exact gauss_quant_strictly_increasing_c. Qed.
-Print Assumptions gauss_quant_strictly_increasing.
+(* the sign tells the side of the median; at the median itself the value is within 2e-8 of 0 *)
 Theorem gauss_quant_sign : forall p, 0 < p -> p < 1 ->
-  (p < 1 / 2 -> gauss_quant p 0 1 < 0) /\ (1 / 2 <= p -> 0 < gauss_quant p 0 1).
-Proof. exact gauss_quant_sign_l. Qed.
+  (p < 1 / 2 -> gauss_quant p 0 1 < 0) /\ (1 / 2 <= p -> 0 < gauss_quant p 0 1) /\
+  Rabs (gauss_quant (1 / 2) 0 1) <= 2 / 100000000.
+Proof. exact gauss_quant_sign_median_l. Qed.
 Print Assumptions gauss_quant_sign.
-Theorem gauss_quant_median : Rabs (gauss_quant (1 / 2) 0 1) <= 2 / 100000000.
-Proof. exact gauss_quant_median_l. Qed.
-Print Assumptions gauss_quant_median.
 
-(* FULL STATEMENT (not proved for every p; see NOTES.md):
-     forall p, 1/10^20 <= p <= 1 - 1/10^20 -> within_1e6 p
-   i.e. Phi (gauss_quant p 0 1 - 1e-6) < p < Phi (gauss_quant p 0 1 + 1e-6), which by
-   [normal_cdf_bracket] puts every q with Phi q = p within 1e-6 of gauss_quant p 0 1.
-   Proved: the bracket lemma for the normal CDF Phi, and the statement at twelve anchor
-   probabilities from 0.4 down to 1e-20 (Interval's certified quadrature). *)
+(* accuracy: Phi x = 1/2 + int_0^x exp(-t^2/2)/sqrt(2 pi) dt is the standard normal CDF
+   (derivative = density, Phi 0 = 1/2, Phi(-x) = 1 - Phi x, strictly increasing) *)
+Theorem normal_cdf_derivative : forall x : R, is_derive Phi x (std_normal_pdf x).
+Proof. exact Phi_is_derive. Qed.
+Print Assumptions normal_cdf_derivative.
+Theorem normal_cdf_symmetric : forall x, Phi (- x) = 1 - Phi x.
+Proof. exact Phi_opp. Qed.
+Print Assumptions normal_cdf_symmetric.
 Theorem normal_cdf_increasing : forall a b, a < b -> Phi a < Phi b.
 Proof. exact Phi_increasing. Qed.
 Print Assumptions normal_cdf_increasing.
-Theorem normal_cdf_bracket : forall z e p q,
-  Phi (z - e) < p -> p < Phi (z + e) -> Phi q = p -> Rabs (z - q) < e.
-Proof. exact Phi_bracket. Qed.
-Print Assumptions normal_cdf_bracket.
-Theorem gauss_quant_accuracy_partial :
-  within_1e6 (4 / 10) /\ within_1e6 (25 / 100) /\ within_1e6 (1 / 10) /\ within_1e6 (33 / 1000) /\
-  within_1e6 (1 / 100) /\ within_1e6 (1 / 10 ^ 3) /\ within_1e6 (1 / 10 ^ 4) /\ within_1e6 (1 / 10 ^ 6) /\
-  within_1e6 (1 / 10 ^ 9) /\ within_1e6 (1 / 10 ^ 12) /\ within_1e6 (1 / 10 ^ 16) /\ within_1e6 (1 / 10 ^ 20).
-Proof. exact gauss_quant_accuracy_anchors_l. Qed.
-Print Assumptions gauss_quant_accuracy_partial.
+(* for EVERY p with min(p, 1-p) >= 1e-20 the true quantile is bracketed within 1e-6, so
+   any x with CDF value p is within 1e-6 standard deviations of gauss_quant p mu std *)
+Theorem gauss_quant_accuracy : forall p, 1 / 10 ^ 20 <= p -> p <= 1 - 1 / 10 ^ 20 ->
+  Phi (gauss_quant p 0 1 - 1 / 1000000) < p < Phi (gauss_quant p 0 1 + 1 / 1000000) /\
+  forall mu std x, 0 < std -> Phi ((x - mu) / std) = p ->
+    Rabs (gauss_quant p mu std - x) < std / 1000000.
+Proof. exact gauss_quant_accuracy_full_l. Qed.
+Print Assumptions gauss_quant_accuracy.
 
 (** Hz <-> rad/sample *)
 Theorem angular_hertz_inverse : forall f sr, sr <> 0 -> angular_to_hertz (hertz_to_angular f sr) sr = f.
